@@ -2,8 +2,24 @@
 #include <stdint.h>
 #include <stdlib.h>
 #include <stddef.h>
+/* two prefixes: "vsbag" has the optional init / free functions and a merge function that insists on the state its init
+ * function returned (a merge call with any other closure reports failure); "vsplain" is the merge function alone */
+#include <stdio.h>
+struct vsstate { unsigned magic; unsigned long calls; };
+void *vsbag_init_func(void);
+void vsbag_free_func(void *clos);
 void vsbag_func(void *clos, const uint8_t *key, size_t len_key, const uint8_t *v0, size_t n0, const uint8_t *v1, size_t n1, uint8_t **out, size_t *nout);
+void vsplain_func(void *clos, const uint8_t *key, size_t len_key, const uint8_t *v0, size_t n0, const uint8_t *v1, size_t n1, uint8_t **out, size_t *nout);
+void *vsbag_init_func(void) { struct vsstate *st = calloc(1, sizeof *st); st->magic = 0x56534247; return st; }
+void vsbag_free_func(void *clos) { struct vsstate *st = clos; if (st == NULL || st->magic != 0x56534247) { fprintf(stderr, "vsbag: free called with a foreign closure\n"); return; } st->magic = 0; free(st); }
 void vsbag_func(void *clos, const uint8_t *key, size_t len_key, const uint8_t *v0, size_t n0, const uint8_t *v1, size_t n1, uint8_t **out, size_t *nout)
+{
+	struct vsstate *st = clos;
+	if (st == NULL || st->magic != 0x56534247) { fprintf(stderr, "vsbag: merge called without the state returned by the init function\n"); *out = NULL; *nout = 0; return; }
+	st->calls++;
+	vsplain_func(NULL, key, len_key, v0, n0, v1, n1, out, nout);
+}
+void vsplain_func(void *clos, const uint8_t *key, size_t len_key, const uint8_t *v0, size_t n0, const uint8_t *v1, size_t n1, uint8_t **out, size_t *nout)
 {
 	(void)clos; (void)key; (void)len_key;
 	uint8_t *r = malloc(n0 + n1 + 1);
